@@ -209,7 +209,7 @@ def run(ctx):
     rng.shuffle(items)
     size = 12
     tasks = [{"items": items[i:i + size], "base": i} for i in range(0, len(items), size)]
-    done = ctx.map("task_batch", tasks)
+    done = ctx.map("task_batch", tasks, min_tasks=24)
     violations, shapes, samples = [], set(), []
     n_eval = n_valid = n_shadow = n_skip = n_stmts = 0
     edge_kinds, profiles = {}, set()
